@@ -112,15 +112,17 @@ func Verif_C18_A1_Decorator() {
 			}
 			vnd.Assert(status.Code(err) == want, "rejected Get does not carry the authorizer's error code")
 		}
-	case 1: // GetFromComposite
-		b := ba.GetFromComposite(ctx, d, objs[ni][1].Digest, verifSlicer{})
+	case 1: // GetFromComposite: parent and child may live under different instance names;
+		// it is the PARENT that is read from the backend, so the parent's name decides
+		nj := vnd.Choose(len(names))
+		b := ba.GetFromComposite(ctx, d, objs[nj][1].Digest, verifSlicer{})
 		_, err := b.ToByteSlice(100)
 		if getA.verdict[ni] == 0 {
 			vnd.Cover("composite-allowed")
-			vnd.Assert(backend.CountCalls("GetFromComposite") == 1, "allowed composite Get did not reach the backend")
+			vnd.Assert(backend.CountCalls("GetFromComposite") == 1, "composite Get whose parent instance name is allowed did not reach the backend")
 		} else {
 			vnd.Cover("composite-rejected")
-			vnd.Assert(len(backend.Calls) == 0, "backend contacted for a composite Get the authorizer did not allow")
+			vnd.Assert(len(backend.Calls) == 0, "backend contacted for a composite Get whose parent instance name the authorizer did not allow")
 			vnd.Assert(err != nil, "rejected composite Get did not fail")
 		}
 	case 2: // Put
